@@ -246,12 +246,17 @@ def expand_path(model, path):
     return out
 
 
-def check_outputs(model, request, form, vectorize, T=0.5, dt=0.05):
-    """C06-B.  request: dict key->path (form 'dict') or list of paths (form 'list')."""
+def check_outputs(model, request, form, vectorize, T=0.5, dt=0.05, pre_runs=()):
+    """C06-B.  request: dict key->path (form 'dict') or list of paths (form 'list').
+    pre_runs: vectorize settings of earlier run() calls on the SAME template instance (their results are discarded)."""
     fails = []
     outputs = dict(request) if form == "dict" else list(request)
     try:
-        df, _, _ = run_model(model, T, dt, None, "euler", vectorize, outputs=outputs)
+        tpl = None
+        kw = dict(clear=True) if pre_runs else {}       # sequences use the API default (caches cleared after every run)
+        for pv in pre_runs:
+            _, _, tpl = run_model(model, T, dt, None, "euler", pv, outputs=dict(outputs) if form == "dict" else list(outputs), tpl=tpl, **kw)
+        df, _, _ = run_model(model, T, dt, None, "euler", vectorize, outputs=outputs, tpl=tpl, **kw)
     except Exception as exn:
         return [dict(clause="run returns a result for a well-formed output request", observed=f"{type(exn).__name__}: {exn}")]
     _, ref = mdl.spec_fixed_step(model, T, dt, dt, "euler")
@@ -341,7 +346,7 @@ def check_overrides(model, ops, vectorize, seed=0, share_nodes=True):
                 hit = [e for e in expected["edges"] if e["src"] == op[1] and e["tgt"] == op[2]]
                 hit[0]["w"] = op[3]
             elif op[0] == "node_values":
-                kw.setdefault("node_values", {})[op[1]] = op[2]
+                kw.setdefault("node_values", {})[op[1]] = np.asarray(op[2], dtype=float) if isinstance(op[2], list) else op[2]
                 expected, _ = mdl_override(expected, op[1], op[2])
             else:
                 raise ValueError(op)
@@ -559,7 +564,7 @@ def check_inputs(model, inputs, vectorize, solver="euler", T=1.0, dt=0.05, only_
 def population_to_explicit(ps):
     """Population spec -> explicit MDL (n separately declared nodes, one scalar edge per non-zero matrix entry)."""
     ops = ps["ops"]
-    nodes, edges = {}, []
+    nodes, edges, edge_ops = {}, [], {}
     for pname, p in ps["pops"].items():
         for i in range(p["n"]):
             over = {}
@@ -571,12 +576,23 @@ def population_to_explicit(ps):
         tp, to, tv = c["tgt"].split("/")
         ns, nt = ps["pops"][sp]["n"], ps["pops"][tp]["n"]
         W = c["W"]
+        ce = c.get("edge")          # coupling edge template: dict(name, eqs, vars, map={input var: 'source' | 'pop/op/var'})
+        if ce:
+            edge_ops[ce["name"]] = dict(eqs=ce["eqs"], vars=ce["vars"])
         for i in range(nt):
             for j in range(ns):
                 w = float(W[i][j]) if isinstance(W, (list, tuple)) else float(W)
                 if w != 0.0:
-                    edges.append(dict(src=f"{sp}_{j}/{so}/{sv}", tgt=f"{tp}_{i}/{to}/{tv}", w=w, d=c.get("d"), s=c.get("s")))
-    return dict(ops=ops, nodes=nodes, edges=edges)
+                    e = dict(src=f"{sp}_{j}/{so}/{sv}", tgt=f"{tp}_{i}/{to}/{tv}", w=w, d=c.get("d"), s=c.get("s"))
+                    if ce:
+                        # evaluated per (target, source) pair: 'source' inputs read unit j of the source, the others unit i of the target
+                        e["tpl"] = ce["name"]
+                        e["post"] = {ev: f"{tp}_{i}/{m.split('/')[1]}/{m.split('/')[2]}" for ev, m in ce["map"].items() if m != "source"}
+                    edges.append(e)
+    out = dict(ops=ops, nodes=nodes, edges=edges)
+    if edge_ops:
+        out["edge_ops"] = edge_ops
+    return out
 
 
 def build_population_circuit(ps):
@@ -600,6 +616,13 @@ def build_population_circuit(ps):
         if c.get("s") is not None:
             kw["spread"] = c["s"]
         W = np.asarray(c["W"], dtype=float) if isinstance(c["W"], (list, tuple)) else float(c["W"])
+        ce = c.get("edge")
+        if ce:
+            from pyrates import EdgeTemplate
+            eop = OperatorTemplate(name=ce["name"], equations=[mdl.eq_str(l, k, t) for l, k, t in ce["eqs"]],
+                                   variables={v: mdl.var_decl(vt, d) for v, (vt, d) in ce["vars"].items()}, path=None)
+            kw["edge"] = EdgeTemplate(name=f"et_{ce['name']}", operators=[eop], path=None)
+            kw["edge_var_map"] = dict(ce["map"])
         conns.append(Connectivity(source=c["src"], target=c["tgt"], weights=W, **kw))
     return CircuitTemplate(name="popnet", populations=pops, connections=conns)
 
@@ -857,7 +880,8 @@ def check_grid_search(model, grid, param_map, outputs, vectorize=True, permute=F
                 m2 = json.loads(json.dumps(m2))
                 for edge in pm["edges"]:
                     hit = [e for e in m2["edges"] if e["src"] == edge[0] and e["tgt"] == edge[1]]
-                    hit[edge[2] if len(edge) > 2 else 0]["w"] = val
+                    for attr in pm["vars"]:
+                        hit[edge[2] if len(edge) > 2 else 0][{"weight": "w", "delay": "d", "spread": "s"}[attr]] = val
         per_var = None
         if inputs:
             per_var = {}
@@ -892,11 +916,11 @@ def check_grid_search(model, grid, param_map, outputs, vectorize=True, permute=F
     return fails
 
 
-def check_dde_field(model, solver, seed=0, dt=0.01):
+def check_dde_field(model, solver, seed=0, dt=0.01, vectorize=False):
     """C10-B1: the compiled function evaluates each delayed term as component x of hist(t - tau) (t in time units)."""
     rng = np.random.default_rng(seed)
     try:
-        comp = compile_model(model, vectorize=False, solver=solver, step_size=dt)
+        comp = compile_model(model, vectorize=vectorize, solver=solver, step_size=dt)
     except Exception as exn:
         return [dict(clause="get_run_func returns a function for a delayed model", observed=f"{type(exn).__name__}: {exn}")]
     names = list(comp["names"])
